@@ -867,13 +867,14 @@ class BlockBase(Base):
                         enable_where_construct_hook = False
                 continue
 
-        except FortranSyntaxError as err:
-            # We hit trouble so clean up the symbol table
+        except Exception:
+            # We hit trouble (e.g. a FortranSyntaxError or an
+            # InternalSyntaxError) so clean up the symbol table
             if table_name:
                 SYMBOL_TABLES.exit_scope()
                 # Remove any symbol table that we created
                 SYMBOL_TABLES.remove(table_name)
-            raise err
+            raise
 
         if table_name:
             SYMBOL_TABLES.exit_scope()
